@@ -25,7 +25,13 @@ def gen(rng, tier):
         c = opzoo.GENERATORS[ALL[i % len(ALL)]](rng)
         if c['cls'] in ('GridSamplingOp', 'SliceProjectionOp', 'WaveletOp'):
             c['complex'] = True  # complex scalars on operators that split real and imaginary parts
+        if c['cls'] == 'SliceProjectionOp':
+            c['vol_batch'] = [[2], [3], [], [2]][(i // len(ALL)) % 4]   # batched complex volumes are always exercised
         c['a'], c['b'] = opzoo.rand_gauss(rng, 1, -3, 3)[0], opzoo.rand_gauss(rng, 1, -3, 3)[0]
+        if c['a'][1] == 0:
+            c['a'][1] = 1   # complex scalars
+        if c['b'][1] == 0:
+            c['b'][1] = -1
         c['seed'] = rng.randrange(10 ** 6)
         out.append(c)
     return out
